@@ -73,6 +73,38 @@ pub fn to_event_log(b: &BidM, seed: u64, height: u64) -> Value {
             }));
         }
     }
+    // identical consecutive events (same amounts, same block) are legitimate history: split some
+    let mut events2: Vec<Value> = vec![];
+    for e in events {
+        let mut split = None;
+        if rng.chance(0.35) {
+            if let Some((kind, body)) = e["action"].as_object().and_then(|o| o.iter().next()) {
+                let amt = |v: &Value| v.get("amount").and_then(|a| a.as_str()).and_then(|a| a.parse::<u128>().ok());
+                let parts: Vec<Option<u128>> = vec![body.get("base").and_then(amt), body.get("quote").and_then(amt), body.get("fee").and_then(amt)];
+                let all_even = parts.iter().flatten().all(|x| x % 2 == 0);
+                let any = parts.iter().flatten().any(|x| *x > 0);
+                if all_even && any {
+                    let mut half = body.clone();
+                    for k in ["base", "quote", "fee"] {
+                        if let Some(a) = body.get(k).and_then(amt) {
+                            half[k]["amount"] = json!((a / 2).to_string());
+                        }
+                    }
+                    let mut act = serde_json::Map::new();
+                    act.insert(kind.clone(), half);
+                    split = Some(json!({"action": Value::Object(act), "block_info": e["block_info"].clone()}));
+                }
+            }
+        }
+        match split {
+            Some(h) => {
+                events2.push(h.clone());
+                events2.push(h);
+            }
+            None => events2.push(e),
+        }
+    }
+    let events = events2;
     json!({
         "base": {"denom": b.base_denom, "amount": b.base_amount.to_string()},
         "events": events,
@@ -169,6 +201,12 @@ pub fn migrate_step(
         if !rewritten.is_empty() && rewritten.len() < book_pre.bids.len() {
             sim.cov.probe("mixed_old_and_new_format_bids");
         }
+    }
+    if sim.enabled[crate::types::prop_index("C16").unwrap()] {
+        // state as an un-migrated deployment would present it: the version query must report
+        // exactly the stored (old / unreadable) record
+        crate::probes::probe_query_singletons(sim);
+        sim.cov.probe("version_query_on_unmigrated_state");
     }
     let after_rewrite = sim.chain.storage.data.clone();
     let exp = model::expect_migrate(stored_version.as_deref(), msg, &cfg_pre);
